@@ -122,6 +122,12 @@ pub fn weights_for(prop: &str) -> [u32; 19] {
             w[O_ADAPT] = 16;
             w[O_UNCHECKED] = 3;
         }
+        "C11" => {
+            // the entry API against the model of the direct operations, on every element family
+            w[O_ENTRY] = 40;
+            w[O_FMT] = 0;
+            w[O_FORK] = 0;
+        }
         "C12" => {
             w[O_REBUILD] = 6;
             w[O_IKV] = 12;
@@ -2470,6 +2476,7 @@ pub fn required_rows(prop: &str) -> Vec<&'static str> {
         "C05" => vec!["insert", "checked_insert", "remove", "retain", "entry.", "index"],
         "C09" => vec!["iter:", "iter_mut:", "keys:", "values:", "values_mut:", "adaptor:"],
         "C10" => vec!["drain", "into_iter", "into_keys", "into_values"],
+        "C11" => vec!["entry."],
         "C12" => vec!["insert", "insert_key_value", "checked_insert", "remove_entry", "entry.", "rebuild"],
         "C15" => vec!["clone", "drop-copy", "clone_from"],
         "C18" => vec!["insert_unchecked"],
@@ -2501,6 +2508,14 @@ pub fn history<F: Fam, const N: usize>(cx: &mut Ctx, hist: u64, mut rng: Rng, ma
     e.h.retag_unchecked = e.cx.prop == "C18";
     e.h.own_prop = e.cx.prop.clone();
     e.h.tag_mod = F::TAG_MOD;
+    if e.cx.prop == "C11" {
+        // an entry step is judged against the reference model of the DIRECT operations (insert-if-absent and
+        // look up, get_mut, insert, remove, remove_entry); what disagrees with it in that very step - results,
+        // the dictionary afterwards, the stored key object, any other entry - is what C11 rules out
+        for from in ["C01", "C05", "C12"] {
+            e.h.dual.push((from, "entry", "C11"));
+        }
+    }
     if e.cx.prop == "C09" {
         // an iter_probe step only walks borrowing iterators and writes through iter_mut / values_mut: a
         // lookup or traversal that disagrees with the model in that very step is "writes made through
